@@ -38,6 +38,10 @@ for _a, _b in (("-printf '%p\\n'", "-print"), ("-print", "-printf '%p %s\\n'")):
 # literally and as an octal escape: the record must still end in the newline (a `~` left single would swallow it)
 for _sp in ("~", "\\176", "\\042", "\\134", "%%", "\\045", "\\012", "\\176\\176"):
     PROGRAMS += ["-printf '%p" + _sp + "\\n'", "-printf '" + _sp + "\\n'", "-print , -printf '%s " + _sp + "\\n'"]
+# an interior escape of every kind inside a newline-terminated plain-mode format: the record must stay ONE write under one lock
+# (a generator that emits a format piecewise gives several critical sections per record)
+for _sp in ("\\0", "\\a", "\\t", "\\f", "\\101", "\\\\", "%%", "\\n"):
+    PROGRAMS += ["-printf '%p" + _sp + "%s\\n'", "-print , -printf 'a" + _sp + "b\\n'"]
 PROGRAMS = list(dict.fromkeys(PROGRAMS))
 
 
